@@ -1,5 +1,6 @@
 import Rough.Lemmas.Request
 import Rough.Lemmas.ServerAssembly
+import Rough.Props.C12
 /-
   C07 — the server answers only well-formed 1024–1500 byte requests and never amplifies.
 -/
